@@ -519,9 +519,12 @@ fn snap_pattern_string(snap: &Snapshot<Payload>, cols: usize) -> String {
         .join("|")
 }
 
+/// number of item ids one World can hand out (raised for the histories that need more)
+pub static REG_CAP: std::sync::atomic::AtomicUsize = std::sync::atomic::AtomicUsize::new(1 << 16);
+
 impl World {
     pub fn new(seed_id: String, rng: &mut Rng, threads: usize, cols: usize, notify: Option<Arc<dyn Fn() + Sync + Send>>) -> World {
-        let reg = Registry::new(if cfg!(miri) { 1 << 9 } else { 1 << 16 });
+        let reg = Registry::new(if cfg!(miri) { 1 << 9 } else { REG_CAP.load(Ordering::Relaxed) });
         let config = if rng.coin() { Config::DEFAULT } else { Config::DEFAULT.match_paths() };
         let notify_count = Arc::new(AtomicU64::new(0));
         let nc = notify_count.clone();
